@@ -82,6 +82,24 @@ def rules(t):
             if not got: r.bad(f"failover-restart|{fld}", x, f"the attempt restarts for the next server address but {fld} is not reset on that path" + (": the timeout clock keeps running from the silent address, so the next address gets no time to answer" if fld == "last_packet_received_time" else ""))
     if not restarts: r.bad("failover-restart-missing", None, "failover does not restart the connection request")
     out.append(r)
+    r = RuleResult("C18.g", "KEEPALIVE-STARVE: a refresh of a connected client's keep-alive timer (last_packet_send_time) either emits a packet kind that completes the client's handshake, or happens only for a confirmed client: application payloads cannot starve the keep-alive a half-connected client is waiting for", floor=2)
+    cp = t.fn("NetcodeClient::process_packet")
+    conn_kinds = set()
+    for s_ in t.stores(NC, "state", cp):
+        if "ClientState::Connected" in fmt(t.stored(s_)):
+            for d in decode_sites(t, cp): conn_kinds |= set(variants_at(t, cp, d, s_.bb))
+    if not conn_kinds: r.bad("no-connecting-kind", None, "no packet kind moves the client to Connected")
+    for s_ in t.stores(CONN, "last_packet_send_time"):
+        g = s_.fn
+        if "NetcodeServer" not in g.path: continue
+        r.site(s_)
+        emits = [a for k in conn_kinds for a in t.aggrs(PKT, k, g)]
+        if any(g.dominates(a.bb, s_.bb) or g.dominates(s_.bb, a.bb) for a in emits): continue        # re-armed together with the emission of a connecting packet
+        if "pending_clients" in fmt(t.place(s_)): continue                                           # a pending (not yet connected) session: its timer does not gate keep-alives
+        conf = [br["t_edge"] for br in t.branches(g) if br["kind"] == "bool" and t.mentions_field(br["raw"], "confirmed")]
+        if any(t.edge_dominates(g, e, s_.bb) for e in conf): continue
+        r.bad(f"{g.path}|starves-keepalive", s_, f"{short(g.path)} refreshes last_packet_send_time of a connected client without emitting one of {sorted(conn_kinds)} and without testing `confirmed`: while the application sends payloads more often than the keep-alive period, no keep-alive is ever sent again, and a client whose first keep-alive was lost stays in SendingConnectionResponse until it times out")
+    out.append(r)
     out.append(shared.slots_match_limit(t, "C18.e"))
     out.append(shared.capacity_rule(t, "C18.f"))
     return out
